@@ -25,6 +25,10 @@ pub mod hist_service;
 #[path = "/verif/harness/hist_naming.rs"]
 pub mod hist_naming;
 
+#[cfg(all(not(kani), test))]
+#[path = "/verif/harness/hist_store.rs"]
+pub mod hist_store;
+
 #[path = "/verif/harness/c05.rs"]
 pub mod c05;
 
@@ -57,6 +61,10 @@ mod replay_entry {
             .unwrap_or_default();
         if module == "cweb" {
             super::cweb::replay_file();
+            return;
+        }
+        if module == "store" {
+            super::hist_store::replay_file();
             return;
         }
         if module == "c11actor" {
